@@ -456,3 +456,7 @@ fn ur_witness() {
     std::mem::forget(r);
     std::mem::forget(ch);
 }
+
+pub(crate) fn recv_mem(ch: &ReceiveChannelUnreliable) -> usize {
+    ch.memory_usage_bytes
+}
